@@ -77,8 +77,12 @@ func giTimeIndex(t time.Time) any {
 }
 
 var giTimeType = reflect.TypeOf(time.Time{})
+var giDurType = reflect.TypeOf(time.Duration(0))
 
 func (d *giDumper) val(v reflect.Value) any {
+	if v.Type() == giDurType {
+		return []any{"dur", time.Duration(v.Int()).String()}
+	}
 	switch v.Kind() {
 	case reflect.Bool:
 		return []any{"bool", v.Bool()}
@@ -193,6 +197,10 @@ func giProj(x zygo.Sexp, depth int) any {
 		return []any{"raw", bs}
 	case *zygo.SexpTime:
 		return giTimeIndex(v.Tm)
+	case *zygo.SexpDur:
+		return []any{"dur", v.Dur.String()}
+	case *zygo.SexpUint64:
+		return projInt(int64(v.Val))
 	case *zygo.SexpArray:
 		xs := []any{}
 		for _, e := range v.Val {
@@ -231,6 +239,71 @@ func giProj(x zygo.Sexp, depth int) any {
 		return []any{"rec", v.TypeName, pairs}
 	}
 	return []any{"other", fmt.Sprintf("%T", x)}
+}
+
+// giOcc lists the identities of the records met by a depth-first walk of a
+// value that came back (records in key order, arrays by index, plain hashes by
+// key text; a record met again is walked again): the number a record gets is
+// its first-visit rank, so two occurrences carry one number exactly when they
+// are ONE record object.
+func giOcc(x zygo.Sexp) []int {
+	ids := map[*zygo.SexpHash]int{}
+	out := []int{}
+	var walk func(x zygo.Sexp, depth int)
+	walk = func(x zygo.Sexp, depth int) {
+		if depth > 40 || len(out) > 400 {
+			return
+		}
+		switch v := x.(type) {
+		case *zygo.SexpArray:
+			for _, e := range v.Val {
+				walk(e, depth+1)
+			}
+		case *zygo.SexpHash:
+			if v.TypeName != "hash" {
+				id, ok := ids[v]
+				if !ok {
+					id = len(ids) + 1
+					ids[v] = id
+				}
+				out = append(out, id)
+				for _, k := range v.KeyOrder {
+					if val, err := v.HashGet(nil, k); err == nil {
+						walk(val, depth+1)
+					}
+				}
+				return
+			}
+			type kv struct {
+				ks string
+				v  zygo.Sexp
+			}
+			var kvs []kv
+			for _, k := range v.KeyOrder {
+				val, err := v.HashGet(nil, k)
+				if err != nil {
+					continue
+				}
+				var key any
+				switch kk := k.(type) {
+				case *zygo.SexpSymbol:
+					key = []any{"str", kk.Name()}
+				case *zygo.SexpStr:
+					key = []any{"str", kk.S}
+				case *zygo.SexpInt:
+					key = projInt(kk.Val)
+				}
+				b, _ := json.Marshal(key)
+				kvs = append(kvs, kv{string(b), val})
+			}
+			sort.SliceStable(kvs, func(i, j int) bool { return kvs[i].ks < kvs[j].ks })
+			for _, e := range kvs {
+				walk(e.v, depth+1)
+			}
+		}
+	}
+	walk(x, 0)
+	return out
 }
 
 // ---------------------------------------------------------------- script values and record graphs
@@ -279,6 +352,10 @@ func giRaw(s string) giVal    { return giVal{K: "raw", Bs: []byte(s)} }
 func giTm(i int) giVal        { return giVal{K: "time", N: int64(i)} }
 func giArr(xs ...giVal) giVal { return giVal{K: "arr", Xs: xs} }
 func giRef(j int) giVal       { return giVal{K: "ref", N: int64(j)} }
+func giDur(s string) giVal    { return giVal{K: "dur", S: s} }    // a duration, spelled as time.Duration prints it
+func giUint(n int64) giVal    { return giVal{K: "uint", N: n} }   // nULL
+func giBig(s string) giVal    { return giVal{K: "bigint", S: s} } // an integer beyond 2^30, decimal text
+func giOpq(s string) giVal    { return giVal{K: "opaque", S: s} } // script text of a value no Go field can hold
 
 // giHash builds a plain hash; pairs are kept in the order of the canonical dump
 // (JSON text of the Go key), which is the order Fill lists them in.
@@ -304,9 +381,9 @@ func (p giPair) goKeyText() string {
 
 func (v giVal) tagged() any {
 	switch v.K {
-	case "int", "chr", "time", "ref":
+	case "int", "chr", "time", "ref", "uint":
 		return []any{v.K, v.N}
-	case "flt", "str":
+	case "flt", "str", "dur", "bigint", "opaque":
 		return []any{v.K, v.S}
 	case "bool":
 		return []any{v.K, v.B}
@@ -414,6 +491,12 @@ func (v giVal) text(sfx string) string {
 	switch v.K {
 	case "int":
 		return strconv.FormatInt(v.N, 10)
+	case "uint":
+		return strconv.FormatInt(v.N, 10) + "ULL"
+	case "bigint", "opaque":
+		return v.S
+	case "dur":
+		return "(dur " + strconv.Quote(v.S) + ")"
 	case "flt":
 		return giFltSpelling(v.S)
 	case "str":
@@ -538,7 +621,7 @@ var giStructs = []struct {
 	{"", reflect.TypeOf(ZvBase{})}, {"", reflect.TypeOf(ZvDeep{})}, {"", reflect.TypeOf(ZvBase2{})},
 	{"zvnode", reflect.TypeOf(ZvNode{})}, {"zvwrap", reflect.TypeOf(ZvWrap{})}, {"zvhost", reflect.TypeOf(ZvHost{})},
 	{"zvpair", reflect.TypeOf(ZvPair{})}, {"zvemb", reflect.TypeOf(ZvEmb{})},
-	{"zvtwin", reflect.TypeOf(ZvTwin{})}, {"zvcrew", reflect.TypeOf(ZvCrew{})},
+	{"zvtwin", reflect.TypeOf(ZvTwin{})}, {"zvcrew", reflect.TypeOf(ZvCrew{})}, {"zvpriv", reflect.TypeOf(ZvPriv{})},
 	{"", reflect.TypeOf(ZvL4{})}, {"", reflect.TypeOf(ZvL3{})}, {"", reflect.TypeOf(ZvL2{})}, {"zvtower", reflect.TypeOf(ZvTower{})},
 	{"persondemo", reflect.TypeOf(zygo.Person{})}, {"eventdemo", reflect.TypeOf(zygo.Event{})},
 	{"", reflect.TypeOf(zygo.Wings{})}, {"plane", reflect.TypeOf(zygo.Plane{})}, {"snoopy", reflect.TypeOf(zygo.Snoopy{})},
@@ -593,6 +676,13 @@ func giKeys(f reflect.StructField) []string {
 }
 
 func giTypeEnc(t reflect.Type) any {
+	if t == giDurType {
+		return []any{"basic", "dur"}
+	}
+	// named scalar types: the Go kind with the prefix n
+	if t.PkgPath() != "" && (t.Kind() == reflect.String || t.Kind() == reflect.Float64) {
+		return []any{"basic", "n" + t.Kind().String()}
+	}
 	switch t.Kind() {
 	case reflect.Bool, reflect.String, reflect.Int, reflect.Int8, reflect.Int16, reflect.Int32, reflect.Int64,
 		reflect.Uint, reflect.Uint8, reflect.Uint16, reflect.Uint32, reflect.Uint64, reflect.Float32, reflect.Float64:
@@ -690,17 +780,43 @@ type giCase struct {
 	ID   string `json:"id"`
 	Kind string `json:"kind"` // fwd | echo | echo0 | hist
 	Via  string `json:"via,omitempty"`
-	Root int    `json:"root"`
-	Sfx  string `json:"sfx"`
-	G    any    `json:"g"`
-	Text string `json:"text"`
-	Cyc  bool   `json:"cyc,omitempty"`
-	Try  int    `json:"tries"`
-	Res  []any  `json:"res"`
-	Note string `json:"note,omitempty"`
+	// kind echo: the parameter type of the method (["ptr", S] | ["iface", I]) and the field of the argument the
+	// method hands back ("": the argument itself)
+	Param any    `json:"param,omitempty"`
+	Sel   string `json:"sel"`
+	Root  int    `json:"root"`
+	Sfx   string `json:"sfx"`
+	G     any    `json:"g"`
+	Text  string `json:"text"`
+	Cyc   bool   `json:"cyc,omitempty"`
+	Try   int    `json:"tries"`
+	Res   []any  `json:"res"`
+	Note  string `json:"note,omitempty"`
 	// kind hist: steps ["togo"] | ["self"] | ["set", node, key, value] with their script texts; Res[i] belongs to step i
 	Steps []any    `json:"steps,omitempty"`
 	Stext []string `json:"stext,omitempty"`
+}
+
+// giParamOf: the parameter type of an identity method of ZvHost (and of Snoopy.EchoWeather).
+func giParamOf(via string) any {
+	switch via {
+	case "TakeAny":
+		return []any{"iface", "ZvAny"}
+	case "AnyLeaf":
+		return []any{"ptr", "ZvLeaf"}
+	case "PairA":
+		return []any{"ptr", "ZvPair"}
+	case "EchoNest":
+		return []any{"ptr", "NestOuter"}
+	case "EchoWeather":
+		return []any{"ptr", "Weather"}
+	}
+	for _, t := range giTypes {
+		if t.echo == via {
+			return []any{"ptr", t.goName}
+		}
+	}
+	return []any{"any"}
 }
 
 func giEchoOf(tn string) string {
@@ -751,9 +867,9 @@ func giAttempt(env *zygo.Zlisp, c *giCase) any {
 			r, objs := giDump(giLastArg)
 			if c.Cyc {
 				// the record handed back reaches itself: it has no finite projection
-				return []any{"ok", r, objs, []any{"cyclic"}}
+				return []any{"ok", r, objs, []any{"cyclic"}, []any{}}
 			}
-			return []any{"ok", r, objs, giProj(arr.Val[0], 0)}
+			return []any{"ok", r, objs, giProj(arr.Val[0], 0), giOcc(arr.Val[0])}
 		case "err":
 			if giLastArg == nil {
 				return []any{"argerr"}
@@ -770,7 +886,7 @@ func giAttempt(env *zygo.Zlisp, c *giCase) any {
 			if !isA || len(arr.Val) != 1 {
 				return []any{"badresult"}
 			}
-			return []any{"ok0", giProj(arr.Val[0], 0)}
+			return []any{"ok0", giProj(arr.Val[0], 0), giOcc(arr.Val[0])}
 		case "err":
 			return []any{"err0"}
 		}
@@ -809,7 +925,7 @@ func giHistory(env *zygo.Zlisp, c *giCase) {
 			default:
 				c.Res = append(c.Res, []any{o.Kind, trunc(o.Err, 200)})
 			}
-		case "self", "echo":
+		case "self", "echo", "selfn", "reself":
 			switch o.Kind {
 			case "val":
 				arr, isA := o.Val.(*zygo.SexpArray)
@@ -817,7 +933,7 @@ func giHistory(env *zygo.Zlisp, c *giCase) {
 					c.Res = append(c.Res, []any{"badresult"})
 				} else {
 					r, objs := giDump(giLastArg)
-					c.Res = append(c.Res, []any{"ok", r, objs, giProj(arr.Val[0], 0)})
+					c.Res = append(c.Res, []any{"ok", r, objs, giProj(arr.Val[0], 0), giOcc(arr.Val[0])})
 				}
 			case "err":
 				if giLastArg == nil {
@@ -943,13 +1059,53 @@ func (gg *giGen) add(tag string, g *giGraph, note string) {
 	rootTn := g.Nodes[g.Root-1].Tn
 	mk := func(kind, via string) {
 		gg.n++
-		gg.cases = append(gg.cases, &giCase{ID: fmt.Sprintf("%s-%d-%s", tag, gg.n, kind), Kind: kind, Via: via,
-			Root: g.Root, Sfx: sfx, G: g.tagged(), Text: text, Cyc: cyc, Try: tries, Note: note})
+		c := &giCase{ID: fmt.Sprintf("%s-%d-%s", tag, gg.n, kind), Kind: kind, Via: via,
+			Root: g.Root, Sfx: sfx, G: g.tagged(), Text: text, Cyc: cyc, Try: tries, Note: note}
+		if kind != "fwd" {
+			c.Param = giParamOf(via)
+			if via == "PairA" {
+				c.Sel = "a"
+			}
+		}
+		gg.cases = append(gg.cases, c)
 	}
 	mk("fwd", "")
+	// the defect generators (one wrong-kind value, one undeclared key) take the method route for every second graph
+	errGen := tag == "w1" || tag == "w2" || tag == "u1" || tag == "u2"
+	if errGen && gg.ng%2 == 1 {
+		return
+	}
 	if e := giEchoOf(rootTn); e != "" {
 		mk("echo", e)
 	} else if rootTn == "weather" {
+		mk("echo0", "EchoWeather")
+	}
+	if errGen {
+		return
+	}
+	// further routes through Go, on a part of the graphs: a result of interface type, a parameter of interface
+	// type, a method that hands back a field of its argument
+	first := giFirstName(rootTn)
+	if cyc {
+		return
+	}
+	if first == "zvleaf" && gg.ng%2 == 0 {
+		mk("echo", "AnyLeaf")
+	}
+	if first == "zvpair" {
+		mk("echo", "PairA")
+	}
+	if giContains(giAnyTypes, first) && gg.ng%6 == 1 {
+		mk("echo", "TakeAny")
+	}
+	// the record passed for a parameter of ANOTHER type: a value of the wrong kind
+	if gg.ng%9 == 3 {
+		other := []string{"EchoLeaf", "EchoNode", "EchoBox", "EchoPair", "EchoTwin"}[gg.ng/9%5]
+		if giEchoOf(rootTn) != other && (rootTn == "weather" || giEchoOf(rootTn) != "") {
+			mk("echo", other)
+		}
+	}
+	if (first == "eventdemo" || first == "zvleaf" || first == "hornet") && gg.ng%3 == 0 {
 		mk("echo0", "EchoWeather")
 	}
 }
@@ -1087,12 +1243,22 @@ func giImplementers(it reflect.Type) []string {
 func (b *giGb) candidates(t reflect.Type, depth int) []func() giVal {
 	c := func(v giVal) func() giVal { return func() giVal { return v } }
 	var out []func() giVal
+	if t == giDurType {
+		return []func() giVal{c(giDur("1s")), c(giDur("1h30m0s"))}
+	}
 	switch t.Kind() {
+	case reflect.Int16:
+		out = append(out, c(giInt(3)), c(giInt(-32768)), c(giInt(300)))
+	case reflect.Uint32, reflect.Uint64:
+		out = append(out, c(giInt(9)), c(giUint(10)))
 	case reflect.Int, reflect.Int64, reflect.Int32:
 		for _, n := range giIntPal {
 			out = append(out, c(giInt(n)))
 		}
 		out = append(out, c(giInt(300)))
+		if t.Kind() != reflect.Int32 {
+			out = append(out, c(giBig("9007199254740993")))
+		}
 		if t.Kind() == reflect.Int32 {
 			out = append(out, c(giChr('a')))
 		}
@@ -1106,7 +1272,7 @@ func (b *giGb) candidates(t reflect.Type, depth int) []func() giVal {
 		for _, s := range giFltPal {
 			out = append(out, c(giFlt(s)))
 		}
-		out = append(out, c(giInt(7)), c(giInt(-1)))
+		out = append(out, c(giInt(7)), c(giInt(-1)), c(giFlt("1e+300")))
 	case reflect.Float32:
 		out = append(out, c(giFlt("1.5")), c(giFlt("-0.25")), c(giFlt("2")))
 	case reflect.String:
@@ -1181,22 +1347,38 @@ func (b *giGb) wrong(t reflect.Type) []func() giVal {
 	c := func(v giVal) func() giVal { return func() giVal { return v } }
 	num := []func() giVal{c(giStr("x")), c(giBool(true)), c(giArr(giInt(1))), c(giRaw("hi")), c(giTm(1)),
 		c(giHash(giPSym("a", giInt(1)))), func() giVal { return b.small("zvleaf", 0) }}
+	// values no Go field can hold (a regexp, a type value, a channel) and, where it is not a number that is asked
+	// for, an unsigned literal: all at the END of the lists (the one-level-down generators take the first two)
+	opq := []func() giVal{c(giOpq(`(regexpCompile "a")`)), c(giOpq("int64")), c(giOpq("(makeChan)"))}
+	if t == giDurType {
+		return append([]func() giVal{c(giStr("1s")), c(giBool(true)), c(giArr(giInt(1))), c(giTm(1)), c(giFlt("1.5"))}, opq[0])
+	}
 	switch t.Kind() {
-	case reflect.Int, reflect.Int64, reflect.Int32, reflect.Int8:
+	case reflect.Int, reflect.Int64, reflect.Int32, reflect.Int8, reflect.Int16:
 		out := append(num, c(giFlt("1.5")), c(giFlt("-0.25")))
 		if t.Kind() == reflect.Int8 {
 			out = append(out, c(giInt(300)), c(giInt(-200)), c(giInt(128)))
 		}
-		return out
-	case reflect.Uint, reflect.Uint8:
-		return append(num, c(giInt(-1)))
-	case reflect.Float64, reflect.Float32:
-		return num
+		if t.Kind() == reflect.Int16 {
+			out = append(out, c(giInt(40000)))
+		}
+		if t.Kind() != reflect.Int && t.Kind() != reflect.Int64 {
+			out = append(out, c(giBig("9007199254740993")))
+		}
+		return append(out, opq[0], opq[1])
+	case reflect.Uint, reflect.Uint8, reflect.Uint32, reflect.Uint64:
+		return append(num, c(giInt(-1)), opq[2])
+	case reflect.Float64:
+		// an integer a float64 cannot hold exactly
+		return append(num, c(giBig("9007199254740993")), opq[1])
+	case reflect.Float32:
+		// a float beyond the range of float32
+		return append(num, c(giFlt("1e+300")), opq[0])
 	case reflect.String:
 		return []func() giVal{c(giInt(1)), c(giFlt("1.5")), c(giBool(true)), c(giArr(giStr("x"))), c(giTm(2)),
-			c(giHash(giPSym("a", giStr("x")))), c(giChr('a'))}
+			c(giHash(giPSym("a", giStr("x")))), c(giChr('a')), opq[0], opq[1], opq[2], c(giUint(10))}
 	case reflect.Bool:
-		return []func() giVal{c(giInt(1)), c(giInt(0)), c(giStr("true")), c(giFlt("1.5")), c(giArr())}
+		return []func() giVal{c(giInt(1)), c(giInt(0)), c(giStr("true")), c(giFlt("1.5")), c(giArr()), opq[1], c(giUint(10))}
 	case reflect.Struct:
 		if t == giTimeType {
 			return []func() giVal{c(giInt(5)), c(giStr("2001-02-03")), c(giFlt("1.5")), c(giArr(giTm(1))), c(giBool(true))}
@@ -1595,8 +1777,20 @@ func (gg *giGen) addHist(g *giGraph, steps []giStep, note string) {
 			c.Steps = append(c.Steps, []any{"self"})
 			c.Stext = append(c.Stext, "(_method "+root+" Self:)\n")
 		case "echo":
-			c.Steps = append(c.Steps, []any{"echo"})
-			c.Stext = append(c.Stext, "(def zvh (zvhost))\n(_method zvh "+giEchoOf(g.Nodes[g.Root-1].Tn)+": "+root+")\n")
+			via := giEchoOf(g.Nodes[g.Root-1].Tn)
+			c.Steps = append(c.Steps, []any{"echo", giParamOf(via)})
+			c.Stext = append(c.Stext, "(def zvh (zvhost))\n(_method zvh "+via+": "+root+")\n")
+		case "reself":
+			// the record handed back by Go is the receiver of a method call
+			via := giEchoOf(g.Nodes[g.Root-1].Tn)
+			c.Steps = append(c.Steps, []any{"reself", giParamOf(via)})
+			c.Stext = append(c.Stext, "(def zvh (zvhost))\n(def zvr"+sfx+" (aget (_method zvh "+via+": "+root+") 0))\n(_method zvr"+sfx+" Self:)\n")
+		case "selfn":
+			c.Steps = append(c.Steps, []any{"selfn", st.node})
+			c.Stext = append(c.Stext, fmt.Sprintf("(_method n%d%s Self:)\n", st.node, sfx))
+		case "del":
+			c.Steps = append(c.Steps, []any{"del", st.node, st.key})
+			c.Stext = append(c.Stext, fmt.Sprintf("(hdel n%d%s (quote %s))\n", st.node, sfx, st.key))
 		default:
 			c.Steps = append(c.Steps, []any{"set", st.node, st.key, st.v.tagged()})
 			c.Stext = append(c.Stext, fmt.Sprintf("(hset n%d%s %s: %s)\n", st.node, sfx, st.key, st.v.text(sfx)))
@@ -1606,7 +1800,7 @@ func (gg *giGen) addHist(g *giGraph, steps []giStep, note string) {
 }
 
 type giStep struct {
-	op   string // togo | self | echo | set
+	op   string // togo | self | selfn | echo | reself | set | del
 	node int
 	key  string
 	v    giVal
@@ -1632,6 +1826,9 @@ func giPlainType(t reflect.Type) bool {
 // a valid, non-zero value of a plain type
 func (b *giGb) good(t reflect.Type, alt int) giVal {
 	c := b.candidates(t, 2)
+	if t == giDurType {
+		return giDur([]string{"1s", "1h30m0s"}[alt%2])
+	}
 	switch t.Kind() {
 	case reflect.Bool:
 		return giBool(true)
@@ -1715,12 +1912,37 @@ func (gg *giGen) histories() {
 				}
 				gg.addHist(b.graph(root), steps(giStep{op: "set", node: int(root.N), key: f.key, v: v}), note+" "+reg+"."+f.name)
 			}
+			// a field that is removed must be zero at the next explicit conversion
+			{
+				b := newGiGb()
+				o := plain[(fi+1)%len(plain)]
+				fs := []giField{giFld(f.key, b.good(f.typ, 0))}
+				if o.key != f.key {
+					fs = append(fs, giFld(o.key, b.good(o.typ, 1)))
+				}
+				root := b.rec(reg, fs...)
+				del := giStep{op: "del", node: int(root.N), key: f.key}
+				gg.addHist(b.graph(root), []giStep{T, del, T}, "convert, remove "+reg+"."+f.name+", convert again")
+			}
 			mk(func(u giStep) []giStep { return []giStep{T, u, S, T, S} }, false, "convert, write, call method on it:")
 			mk(func(u giStep) []giStep { return []giStep{S, u, S, S} }, false, "call method, write, call method:")
 			mk(func(u giStep) []giStep { return []giStep{T, u, E, S} }, false, "convert, write, pass as argument:")
 			mk(func(u giStep) []giStep { return []giStep{E, u, E} }, false, "pass as argument, write, pass again:")
 			if fi < 2 {
 				mk(func(u giStep) []giStep { return []giStep{T, u, S, E} }, true, "convert, write a wrong-kind value, call method:")
+			}
+		}
+	}
+	// a record that came back from Go is the receiver of a method call
+	for _, reg := range []string{"zvleaf", "zvpair", "zvtower", "zvcrew"} {
+		for k := 0; k < 2; k++ {
+			b := newGiGb()
+			root := b.small(reg, k)
+			if reg == "zvpair" {
+				root = b.rec("zvpair", giFld("l", giStr("pl")), giFld("a", b.small("zvleaf", k)), giFld("b", b.small("zvleaf", k+1)))
+			}
+			if g := b.graph(root); giFirstName(g.Nodes[g.Root-1].Tn) == reg {
+				gg.addHist(g, []giStep{{op: "reself"}, E}, "the record handed back is a receiver: "+reg)
 			}
 		}
 	}
@@ -1745,6 +1967,15 @@ func (gg *giGen) histories() {
 				steps = []giStep{S, T, fix, T, S}
 			}
 			gg.addHist(b.graph(root), steps, "fail below "+n.root+"."+n.key+", repair, convert again")
+		}
+		// the conversion of the root fails below: the record below must not keep a half-made object
+		if giContains([]string{"zvleaf"}, n.child) {
+			b := newGiGb()
+			child := b.rec(n.child, giFld("plain", giStr("x")), giFld(n.ckey, b.wrong(cf.typ)[0]()))
+			root := b.rec(n.root, giFld(n.key, child))
+			N := giStep{op: "selfn", node: int(child.N)}
+			fix := giStep{op: "set", node: int(child.N), key: n.ckey, v: b.good(cf.typ, 0)}
+			gg.addHist(b.graph(root), []giStep{S, N, T, N, fix, N, S}, "fail below "+n.root+"."+n.key+", call method on the record below")
 		}
 		// a write to the record below after a successful conversion
 		b := newGiGb()
